@@ -92,6 +92,10 @@ MagDivLoop(a, b, i, q, r) ==     \* processes bit i of a (from the top) with par
                      IF ge THEN MagSub(r2, b) ELSE r2)
 MagDivMod(a, b) == MagDivLoop(a, b, MagBitLen(a) - 1, <<>>, <<>>)      \* b # <<>>
 
+\* greatest common divisor of magnitudes (Euclid); MagGcd(a, <<>>) = a
+RECURSIVE MagGcd(_, _)
+MagGcd(a, b) == IF b = <<>> THEN a ELSE MagGcd(b, MagDivMod(a, b)[2])
+
 \* signed
 BigZero == [neg |-> FALSE, mag |-> <<>>]
 Mk(neg, mag) == [neg |-> (neg /\ mag # <<>>), mag |-> mag]
